@@ -28,16 +28,18 @@ inductive TokOk : Tk → Bytes → Prop
   | neg (rest) (ha : AsciiHd rest) (hd : hdRune rest < 48 ∨ 57 < hdRune rest) : TokOk tNeg rest
   /-- a binary operator symbol, followed by a space -/
   | op (o : BinOp) (rest) (ho : o ≠ .and ∧ o ≠ .or) : TokOk (tOp o) (32 :: rest)
-  /-- identifiers and keywords (`null true false not and or`) -/
-  | word (c : UInt8) (k : Bytes) (rt : ItemType) (rest) (hc : isIdStart c = true) (hk : ∀ b ∈ k, isIdChar b = true)
+  /-- identifiers and keywords (`null true false not and or`): an ASCII letter or `_`, then letters /
+      digits / `_` (any Unicode letter or digit, in UTF-8) -/
+  | word (c : UInt8) (k : Bytes) (rt : ItemType) (rest) (hc : isIdStart c = true) (hk : alnumBytes k = true)
       (hr : WordEnd rest)
       (hl : (Gen.builtinIdents.lookup (c :: k) = some rt ∧ rt ≠ .tLiteral ∧ rt ≠ .tCss) ∨
             (Gen.builtinIdents.lookup (c :: k) = none ∧ rt = .tIdent)) : TokOk ⟨rt, c :: k⟩ rest
-  | dollar (c : UInt8) (k : Bytes) (rest) (hc : isIdStart c = true) (hk : ∀ b ∈ k, isIdChar b = true)
+  | dollar (c : UInt8) (k : Bytes) (rest) (hk : alnumBytes (c :: k) = true)
+      (hl : ∀ r w, runeAt (c :: k) = some (r, w) → letterR r = true)
       (hr : WordEnd rest) : TokOk ⟨.tDollarIdent, 36 :: c :: k⟩ rest
-  | dot (c : UInt8) (k : Bytes) (rest) (hk : ∀ b ∈ c :: k, isIdChar b = true) (hr : WordEnd rest) :
+  | dot (c : UInt8) (k : Bytes) (rest) (hk : alnumBytes (c :: k) = true) (hr : WordEnd rest) :
       TokOk ⟨if isDig c then .tDotIndex else .tDotIdent, 46 :: c :: k⟩ rest
-  | qdot (c : UInt8) (k : Bytes) (rest) (hk : ∀ b ∈ c :: k, isIdChar b = true) (hr : WordEnd rest) :
+  | qdot (c : UInt8) (k : Bytes) (rest) (hk : alnumBytes (c :: k) = true) (hr : WordEnd rest) :
       TokOk ⟨if isDig c then .tQuestionDotIndex else .tQuestionDotIdent, 63 :: 46 :: c :: k⟩ rest
   | num (val : Bytes) (typ : ItemType) (rest) (hs : NumShape val typ) (hr : NumEnd rest) : TokOk ⟨typ, val⟩ rest
   | str (val : Bytes) (rest) (hs : strOk val = true) : TokOk ⟨.tString, val⟩ rest
@@ -113,7 +115,7 @@ theorem tok_step {inp : Array UInt8} {p : Nat} {t : Tk} {rest : Bytes} {le : Ite
     | and => exact absurd rfl ho.1
     | elvis => exact step_elvis (s := 32 :: r) h le its
   | word c k rt _ hc hk hr hl => exact ⟨2, by omega, by omega, run_of_step2 (step_word T h hc hk hr rt hl le its)⟩
-  | dollar c k _ hc hk hr => exact ⟨2, by omega, by omega, run_of_step2 (step_dollar T h hc hk hr le its)⟩
+  | dollar c k _ hk hl hr => exact ⟨2, by omega, by omega, run_of_step2 (step_dollar T h hk hl hr le its)⟩
   | dot c k _ hk hr => exact ⟨2, by omega, by omega, run_of_step2 (step_dot T h hk hr le its)⟩
   | qdot c k _ hk hr => exact ⟨2, by omega, by omega, run_of_step2 (step_qdot T h hk hr le its)⟩
   | num val typ _ hs hr =>
